@@ -31,6 +31,39 @@ def stageHistory (c : Ctl) (ws : List Int) : List (Option CtlOp) → List Json
           ("total", jint (totalOfStages c.stages ws))] :: stageHistory c' ws r
   | some o :: r => stageHistory (step c o) ws r
 
+def parseFinal (s : String) : Except String Final :=
+  match s with
+  | "finished" => pure .finished
+  | "shutdown" => pure .shutdown
+  | "failed" => pure .failed
+  | _ => throw s!"unknown final state {s}"
+
+def parseCOp (v : Json) : Except String (Option COp) := do
+  let a ← v.getArr?
+  let tag ← (a[0]?.getD Json.null).getStr?
+  let n (i : Nat) : Except String Nat := (a[i]?.getD Json.null).getNat?
+  match tag with
+  | "term" => return some (.term (← n 1) (← n 2) (← parseFinal (← (a[3]?.getD Json.null).getStr?)))
+  | "see" => return some (.see (← n 1) (← n 2))
+  | "grow" => return some (.grow (← n 1) (← n 2))
+  | "stop" => return some (.stop (← n 1))
+  | "next" => return some .next
+  | "q" => return none
+  | _ => throw s!"unknown controller op {tag}"
+
+/-- runs the history on the `comp_done` model; at every `["q"]` reports per stage (FINISHED components,
+population), the two stage lists, the current stage and the total -/
+def compHistory (c : CState) (ws : List Int) : List (Option COp) → List Json
+  | [] => []
+  | none :: r =>
+    jobj [("stages", jarr (c.stages.map (fun s => jarr [jnat (succCount s), jnat s.length]))),
+          ("transit", jarr ((inTransitOf c.stages).map jnat)),
+          ("finished", jarr ((finishedOf c.stages).map jnat)),
+          ("cur", jnat c.cur),
+          ("D", jint (prodLenC c.stages)),
+          ("total", jint (compTotal c.cur c.stages ws))] :: compHistory c ws r
+  | some o :: r => compHistory (stepC c o) ws r
+
 def handle (j : Json) : Except String Json := do
   let op ← getStr j "op"
   match op with
@@ -69,6 +102,16 @@ def handle (j : Json) : Except String Json := do
     let c : Ctl := ⟨pops.map (fun n => List.replicate n false), pops.map (fun _ => none)⟩
     return jobj [("weights", jarr ((normalize ws).map jint)),
                  ("queries", jarr (stageHistory c (normalize ws) ops))]
+  | "comphist" =>
+    -- stages: population per stage; `start`: the stages before it completed in an earlier run
+    let pops ← getNatList j "stages"
+    let start ← getNat j "start"
+    let ws ← getIntList j "ws"
+    let ops ← (← getArr j "ops").mapM parseCOp
+    let stages : List (List Comp) := (List.range pops.length).map (fun k =>
+      List.replicate (pops.getD k 0) (if k < start then ⟨some Final.finished, true⟩ else Comp.fresh))
+    return jobj [("weights", jarr ((normalize ws).map jint)),
+                 ("queries", jarr (compHistory ⟨start, stages⟩ (normalize ws) ops))]
   | "monitor" =>
     let ws ← getIntList j "ws"
     return match monitorWeights ws with
